@@ -16,6 +16,7 @@ import (
 	"sort"
 	"strconv"
 	"sync"
+	"time"
 
 	"k8s.io/apimachinery/pkg/api/errors"
 	metav1 "k8s.io/apimachinery/pkg/apis/meta/v1"
@@ -40,12 +41,21 @@ type CondJ struct {
 
 const garbled = 900000 // a field that does not decode: never equal to a generated value
 
+// instanceOf: every field the store or its helpers could key on varies: an even spec value is a condition WITHOUT an
+// instance (like the limiter's <upstream>.state), an odd one carries an instance.
+func instanceOf(spec int) string {
+	if spec%2 == 0 {
+		return ""
+	}
+	return "i" + strconv.Itoa(spec)
+}
+
 func toObj(c CondJ) *proxyv1alpha1.RateLimitCondition {
 	o := &proxyv1alpha1.RateLimitCondition{
 		ObjectMeta: metav1.ObjectMeta{Name: rig.UnHex(c.Name)},
 		Spec: proxyv1alpha1.RateLimitSpec{
 			UpstreamCluster: rig.UnHex(c.Up),
-			Instance:        "i" + strconv.Itoa(c.Spec),
+			Instance:        instanceOf(c.Spec),
 			LimitItemConfigurations: []proxyv1alpha1.RateLimitItemConfiguration{{Name: "fc",
 				LimitItemDetail: proxyv1alpha1.LimitItemDetail{MaxRequestsInflight: &proxyv1alpha1.MaxRequestsInflightFlowControlSchema{Max: int32(c.Spec)}}}},
 		},
@@ -64,9 +74,8 @@ func toObj(c CondJ) *proxyv1alpha1.RateLimitCondition {
 
 func fromObj(o *proxyv1alpha1.RateLimitCondition) CondJ {
 	c := CondJ{Name: rig.Hex(o.Name), Up: rig.Hex(o.Spec.UpstreamCluster), Spec: garbled, Status: garbled}
-	if len(o.Spec.Instance) > 1 && o.Spec.Instance[0] == 'i' {
-		if n, err := strconv.Atoi(o.Spec.Instance[1:]); err == nil && len(o.Spec.LimitItemConfigurations) == 1 &&
-			o.Spec.LimitItemConfigurations[0].MaxRequestsInflight != nil && int(o.Spec.LimitItemConfigurations[0].MaxRequestsInflight.Max) == n {
+	if len(o.Spec.LimitItemConfigurations) == 1 && o.Spec.LimitItemConfigurations[0].MaxRequestsInflight != nil {
+		if n := int(o.Spec.LimitItemConfigurations[0].MaxRequestsInflight.Max); o.Spec.Instance == instanceOf(n) {
 			c.Spec = n
 		}
 	}
@@ -162,7 +171,13 @@ func (s *sim) enter(kind, name string) (fault string) {
 	h, inWindow, gate, owner := s.hook, s.inWindow, s.gate, s.gateOwner
 	s.hookMu.Unlock()
 	if gate != nil && goID() != owner {
-		<-gate
+		// a call that was parked on the store mutex is held here until the operation it waited for has been
+		// recorded. If that operation does not end (it released the mutex half-way and now waits for the mutex this
+		// caller holds) the caller goes on after a while: the interleaving then shows in the crash points.
+		select {
+		case <-gate:
+		case <-time.After(10 * time.Second):
+		}
 	}
 	if h != nil && !inWindow && h(kind, name) {
 		s.hookMu.Lock()
